@@ -125,6 +125,16 @@ func c18Templates(ids []string) []c18tmpl {
 		{name: "v1-delete", method: "DELETE", path: "/v1/collections/legacy/points", body: map[string]any{"ids": []any{ids[5]}}, mutating: true},
 		{name: "v1-search", method: "POST", path: "/v1/collections/legacy/points/search", body: map[string]any{"vector": []any{0.1, 0.2, 0.3}, "limit": 5}, mutating: false},
 		{name: "v1-delete-collection", method: "DELETE", path: "/v1/collections/scratchv1", body: nil, mutating: true},
+		// filters of every indexed type (their value arrays and operators get mutated like everything else)
+		{name: "v2-search-tags", method: "POST", path: "/v2/collections/base/points/search", body: map[string]any{"query": map[string]any{"property": "tags", "stringArray": map[string]any{"value": []any{"red", "green"}, "operator": "containsAny"}}, "limit": 10}, mutating: false},
+		{name: "v2-search-tags-in-and", method: "POST", path: "/v2/collections/base/points/search", body: map[string]any{"query": map[string]any{"property": "_and", "_and": []any{map[string]any{"property": "tags", "stringArray": map[string]any{"value": []any{"blue"}, "operator": "containsAll"}}, map[string]any{"property": "n", "integer": map[string]any{"value": 0, "operator": "greaterThanOrEquals"}}}}, "limit": 10}, mutating: false},
+		{name: "v2-search-string", method: "POST", path: "/v2/collections/base/points/search", body: map[string]any{"query": map[string]any{"property": "s", "string": map[string]any{"value": "apple", "operator": "equals"}}, "limit": 10}, mutating: false},
+		{name: "v2-search-flat-with-tags-filter", method: "POST", path: "/v2/collections/base/points/search", body: map[string]any{"query": map[string]any{"property": "flat", "vectorFlat": map[string]any{"vector": []any{0.6, 0.8, 0.0}, "operator": "near", "limit": 5, "filter": map[string]any{"property": "tags", "stringArray": map[string]any{"value": []any{"red"}, "operator": "containsAny"}}}}, "limit": 10}, mutating: false},
+		// v1 requests inside v1's documented ranges on a collection whose parameters come from v2
+		{name: "v1-search-v1compat-limit75", method: "POST", path: "/v1/collections/v1compat/points/search", body: map[string]any{"vector": []any{0.1, 0.2, 0.3}, "limit": 75}, mutating: false},
+		{name: "v1-search-v1compat-limit31", method: "POST", path: "/v1/collections/v1compat/points/search", body: map[string]any{"vector": []any{0.3, 0.2, 0.1}, "limit": 31}, mutating: false},
+		{name: "v1-search-v1compat-default", method: "POST", path: "/v1/collections/v1compat/points/search", body: map[string]any{"vector": []any{0.3, 0.2, 0.1}}, mutating: false},
+		{name: "v1-get-v1compat", method: "GET", path: "/v1/collections/v1compat", body: nil, mutating: false},
 		// API version crossings
 		{name: "v1-get-on-v2-collection", method: "GET", path: "/v1/collections/base", body: nil, mutating: false},
 		{name: "v1-search-on-v2-collection", method: "POST", path: "/v1/collections/base/points/search", body: map[string]any{"vector": []any{0.1, 0.2, 0.3, 0.4}, "limit": 5}, mutating: false},
@@ -643,6 +653,16 @@ func (c18) RunCase(c fw.Case, env *fw.Env) *fw.CaseResult {
 		v1pts = append(v1pts, map[string]any{"id": s.ids[30+i], "vector": []any{0.1 * float64(i), 0.2, 0.3}, "metadata": map[string]any{"i": i}})
 	}
 	s.cl.Do("POST", "/v1/collections/legacy/points", map[string]any{"points": v1pts})
+	// a collection made through v2 that looks like a v1 collection (a vamana index on "vector") but with
+	// parameters v1 would never choose: v1 requests on it pass v1's validation and must be served
+	if r := s.cl.Do("POST", "/v2/collections", map[string]any{"id": "v1compat", "indexSchema": map[string]any{
+		"vector": map[string]any{"type": "vectorVamana", "vectorVamana": map[string]any{"vectorSize": 3, "distanceMetric": "euclidean", "searchSize": 30, "degreeBound": 32, "alpha": 1.1}}}}); r.Status == 200 {
+		pts := []any{}
+		for i := 0; i < 40; i++ {
+			pts = append(pts, map[string]any{"vector": []any{0.05 * float64(i), 0.2, 0.3}, "metadata": map[string]any{"i": i}})
+		}
+		s.cl.Do("POST", "/v2/collections/v1compat/points", map[string]any{"points": pts})
+	}
 	s.base = s.digest()
 	// ---- the unmutated templates must work (sanity of the generator, and the
 	// API crossings are requests that pass validation)
